@@ -6,7 +6,10 @@
    the tracer keeps:
      heap    - the Python-level objects: "leaf" = GuppyObject (one wire) with its
                `_used` flag and the copyable/droppable class of its type
-               (lin = qubit, aff = non-copyable droppable, cpy = int);
+               (lin = qubit; aff = non-copyable but droppable, a value that stays ONE
+               traced object: an opaque affine type and Option[array[int, 2]]; cpy = int).
+               A leaf is fresh or used; a second use of a non-copyable leaf is an error
+               whatever its droppability; an unused aff leaf may be dropped, a lin one not;
                "tuple" = Python tuple, "list" = list / frozenlist (field frozen),
                "struct" = GuppyStructObject (field frozen).  Node 1 is `x`.
                (tracing/unpacking.py unpack_guppy_object builds exactly this from an
@@ -16,11 +19,12 @@
    One action per statement of the body:
      Use(p)     f(<p>) with f taking its argument @owned        (function.py trace_call)
      Borrow(p)  f(<p>) with f borrowing its argument            (trace_call + unpacking.py update_packed_value)
+     UseTup(op) the subject (a single traced object) moved into a tuple argument: f((x, x)) / f((x, <fresh>))
      Mut(op,p)  a mutating list method / item assignment on the list at p  (frozenlist.py);
                 every way Python offers to change a list in place: the 11 methods and
                 operators frozenlist overrides plus re-initialisation l.__init__(...)
      SetAttr    attribute assignment on the struct at p         (GuppyStructObject.__setattr__)
-     Finish(r)  `return <r>` or falling off the end             (function.py trace_function:
+     Finish(r)  `return <r>`, `return x, x` or falling off the end            (function.py trace_function:
                 pack + use the return value, pack + use every borrowed argument and
                 compare its type, then the leak check)
    Packing a Python value into a Guppy value (unpacking.py guppy_object_from_py) is the
@@ -45,7 +49,7 @@
    it as a @guppy.comptime function, compiles it with /repo and compares. *)
 EXTENDS Naturals, Sequences, FiniteSets, TLC, Json
 
-CONSTANTS Types,      \* subset of {"Q","I","F","AQ","AI","TQ","SQ","SA","TA"}
+CONSTANTS Types,      \* subset of {"Q","I","F","O","AQ","AI","TQ","SQ","SA","TA"}
           Origins,    \* subset of {"owned","borrowed","local"}
           MutOps,     \* list mutators explored
           MaxOps,
@@ -58,6 +62,8 @@ AttrOps == {"setattr_same", "setattr_fresh", "setattr_alias"}
 Paths == {<<>>, <<1>>, <<2>>, <<1, 1>>, <<1, 2>>}
 RetPaths == {<<>>, <<1>>}
 NoRet == <<0>>
+RetPair == <<9>>      \* `return x, x` (x a single traced object)
+TupOps == {"usepair", "usewith"}
 
 Leaf(c)       == [k |-> "leaf",   cls |-> c, used |-> FALSE, items |-> <<>>, frozen |-> FALSE, own |-> FALSE]
 Node(k, c, s) == [k |-> k,        cls |-> c, used |-> FALSE, items |-> s,    frozen |-> FALSE, own |-> FALSE]
@@ -67,6 +73,7 @@ Layout(t) ==
     CASE t = "Q"  -> <<Leaf("lin")>>
       [] t = "I"  -> <<Leaf("cpy")>>
       [] t = "F"  -> <<Leaf("aff")>>
+      [] t = "O"  -> <<Leaf("aff")>>    \* Option[array[int, 2]]: affine, not unpacked, stays ONE traced object
       [] t = "AQ" -> <<Node("list", "lin", <<2, 3>>), Leaf("lin"), Leaf("lin")>>
       [] t = "AI" -> <<Node("list", "cpy", <<2, 3>>), Leaf("cpy"), Leaf("cpy")>>
       [] t = "TQ" -> <<Node("tuple", "-", <<2, 3>>), Leaf("lin"), Leaf("lin")>>
@@ -264,13 +271,37 @@ SetAttr(op, p) ==
                /\ unused' = u1 /\ consumed' = c1 /\ Keep
     /\ UNCHANGED <<ty, origin>>
 
+\* the subject, a single traced object, moved into a tuple that is handed to an @owned parameter:
+\* usepair f((x, x)), usewith f((x, <fresh>)); guppy_object_from_py uses the elements left to right
+UseTup(op) ==
+    /\ Live /\ IsLeaf(1)
+    /\ Stmt(op, <<>>)
+    /\ LET fresh == op = "usewith"
+           f == Len(heap) + 1
+           h1 == IF fresh THEN Append(heap, Fresh(heap[1].cls)) ELSE heap
+           u1 == IF fresh /\ heap[1].cls = "lin" THEN unused \cup {f} ELSE unused
+           c1 == IF fresh THEN Append(consumed, 0) ELSE consumed
+           evs == UseEv(1) \o UseEv(IF fresh THEN f ELSE 1)
+           r == RunEv(evs, 1, h1)
+       IN IF r.ok
+          THEN /\ heap' = r.h
+               /\ unused' = u1 \ {i \in 1..Len(r.h) : r.h[i].used}
+               /\ consumed' = Bump(c1, evs)
+               /\ Keep
+          ELSE /\ Error(r.why) /\ heap' = h1 /\ unused' = u1 /\ consumed' = c1
+    /\ UNCHANGED <<ty, origin, mutOwned>>
+
 \* ---- end of the function (trace_function after the Python body returned) ------------------
 Finish(r) ==
     /\ ~done
-    /\ r = NoRet \/ (r \in RetPaths /\ At(r) # 0)
+    /\ r = NoRet \/ (r = RetPair /\ IsLeaf(1)) \/ (r \in RetPaths /\ At(r) # 0)
     /\ done' = TRUE /\ ret' = r
-    /\ rshape' = IF r = NoRet THEN <<>> ELSE Shape(heap, At(r))
-    /\ LET evs1 == IF r = NoRet THEN <<>> ELSE PassEv(heap, At(r))
+    /\ rshape' = IF r = NoRet THEN <<>>
+                 ELSE IF r = RetPair THEN <<"tuple", <<Shape(heap, 1), Shape(heap, 1)>>>>
+                 ELSE Shape(heap, At(r))
+    /\ LET evs1 == IF r = NoRet THEN <<>>
+                   ELSE IF r = RetPair THEN UseEv(1) \o UseEv(1)
+                   ELSE PassEv(heap, At(r))
            r1 == RunEv(evs1, 1, heap)
            \* borrowed argument: implicitly returned, and its type must be unchanged
            evs2 == IF origin = "borrowed" THEN PassEv(r1.h, 1) ELSE <<>>
@@ -290,8 +321,9 @@ DoUse     == \E p \in Paths : Use(p)
 DoBorrow  == \E p \in Paths : Borrow(p)
 DoMut     == \E p \in Paths, op \in MutOps : Mut(op, p)
 DoSetAttr == \E p \in Paths, op \in AttrOps : SetAttr(op, p)
-DoFinish  == \E r \in RetPaths \cup {NoRet} : Finish(r)
-Next == DoUse \/ DoBorrow \/ DoMut \/ DoSetAttr \/ DoFinish
+DoUseTup  == \E op \in TupOps : UseTup(op)
+DoFinish  == \E r \in RetPaths \cup {NoRet, RetPair} : Finish(r)
+Next == DoUse \/ DoBorrow \/ DoUseTup \/ DoMut \/ DoSetAttr \/ DoFinish
 Spec == Init /\ [][Next]_vars
 
 \* ---- the property, stated on the ghost variables -------------------------------------------
@@ -304,7 +336,9 @@ NoOwnedMutation == Accepted => ~mutOwned
 \* the registry is exactly the set of unused non-droppable leaves
 RegistryExact == ~done => unused = {i \in Ids : NonDroppable(heap, i) /\ ~heap[i].used}
 \* conversely: a body that consumed a linear leaf twice or never, or mutated owned data, is an error
-Rejected == (done /\ (mutOwned \/ \E i \in Ids : IsLeaf(i) /\ heap[i].cls = "lin" /\ consumed[i] # 1))
+Rejected == (done /\ (\/ mutOwned
+                      \/ \E i \in Ids : IsLeaf(i) /\ heap[i].cls = "lin" /\ consumed[i] # 1
+                      \/ \E i \in Ids : IsLeaf(i) /\ heap[i].cls = "aff" /\ consumed[i] > 1))
             => verdict = "error"
 
 Case == [ty |-> ty, origin |-> origin, prog |-> prog, ret |-> ret, rshape |-> rshape,
